@@ -245,6 +245,71 @@ def shape_graphs(hdraw, sh, max_ent=8):
     return d
 
 
+# ---- enumerated family: two root hierarchies joined by a multiply inheriting entity --------------------------------------
+
+FAMILY_KINDS = ("abstract-oneof", "abstract-and", "abstract-andor", "abstract-implicit", "oneof", "abstract-single", "abstract-deep")
+FAMILY_ROOT_EXPR = (None, "ONEOF", "ANDOR", "AND", "x-only")
+FAMILY_PLACES = ("first-root", "last-root", "both-roots")
+FAMILY_JOINS = ("roots", "below-first", "below-last")
+
+
+def family():
+    """All parameter tuples of the two-root family (see family_graph)."""
+    return [(k, r, pl, jn) for k in FAMILY_KINDS for r in FAMILY_ROOT_EXPR for pl in FAMILY_PLACES for jn in FAMILY_JOINS]
+
+
+def _constrained(ents, name, root, kind, leaves, deep):
+    """entity `name` below `root` with two leaves and the constraint `kind`; returns the names added"""
+    x = _entity(name, [root])
+    ents.append(x)
+    kids = [_entity(l, [name]) for l in leaves]
+    ents.extend(kids)
+    if kind.startswith("abstract"):
+        x["abstract"] = True
+    op = {"abstract-oneof": "ONEOF", "oneof": "ONEOF", "abstract-and": "AND", "abstract-andor": "ANDOR", "abstract-deep": "ONEOF"}.get(kind)
+    if kind == "abstract-single":
+        x["superexpr"] = leaves[0]          # the second leaf stays implicit
+    elif op:
+        x["superexpr"] = {"op": op, "args": list(leaves)}
+    if kind == "abstract-deep":
+        ents.append(_entity(deep, [leaves[0]]))
+
+
+def family_graph(params):
+    """Two independent root hierarchies; an entity j inherits from both (directly from the roots, or from a plain entity below
+    one of them); below the alphabetically first root, the last root or both hangs an entity with two leaves and a constraint
+    (ABSTRACT and/or ONEOF/AND/ANDOR over its leaves, a leaf with a subtype of its own); the roots optionally constrain j
+    against that entity.  The run-time matcher joins the two hierarchies in alphabetical order of the root names, so the
+    position of the constrained entity relative to that order is a parameter of its own."""
+    kind, rexpr, place, join = params
+    ents = []
+    r1, r2 = "ra", "rb"                     # ra sorts first
+    ents.append(_entity(r1, []))
+    ents.append(_entity(r2, []))
+    s1, s2 = [r1], [r2]
+    if join == "below-first":
+        ents.append(_entity("ka", [r1]))
+        s1 = ["ka"]
+    if join == "below-last":
+        ents.append(_entity("kb", [r2]))
+        s2 = ["kb"]
+    ents.append(_entity("m", s1 + s2))
+    if place in ("first-root", "both-roots"):
+        _constrained(ents, "x", r1, kind, ["p", "q"], "pp")
+    if place in ("last-root", "both-roots"):
+        _constrained(ents, "y", r2, kind, ["u", "v"], "uu")
+    if rexpr:
+        for root, cons, jn in ((r1, "x", s1[0] if s1[0] != r1 else "m"), (r2, "y", s2[0] if s2[0] != r2 else "m")):
+            have = [e["name"] for e in ents]
+            if cons not in have:
+                continue
+            e = [z for z in ents if z["name"] == root][0]
+            e["superexpr"] = cons if rexpr == "x-only" else {"op": rexpr, "args": [jn, cons]}
+    d = {"name": "c08s", "types": [], "entities": ents, "tags": {"kwish": 0, "excluded": [], "kind": "two-root-family",
+                                                             "family": "%s/%s/%s/%s" % params}}
+    return d
+
+
 # ---- classification -----------------------------------------------------------------------------------------------------
 
 def expr_depth(x):
